@@ -27,9 +27,14 @@ def classes():
     import dawgie
 
     class Val(dawgie.Value):
-        def __init__(self, content=None, ver=(1, 0, 0)):
+        # as in a real engine the version is what the class declares: a
+        # fresh instance carries it (Version.__setstate__ relies on that);
+        # one subclass per value identity, see val_class()
+        VER = [1, 0, 0]
+
+        def __init__(self, content=None):
             dawgie.Value.__init__(self)
-            self._version_ = dawgie.VERSION(*ver)
+            self._version_ = dawgie.VERSION(*type(self).VER)
             self.content = content
 
         def features(self):
@@ -82,6 +87,48 @@ def classes():
         globals()[c.__name__] = c
     _CLASSES.update(Val=Val, SV=SV, Alg=Alg, Bot=Bot)
     return _CLASSES
+
+
+def val_class(i, j, k, ver, inherit=False):
+    '''the Value class of value k of state vector j of algorithm i; its
+    declared version is the list ``ver`` (bumped in place by the harness, as
+    a code change would).  ``inherit``: derived from the class of value 0 of
+    the same state vector (value classes related by inheritance).'''
+    base = classes()['Val']
+    name = f'Val_{i}_{j}_{k}'
+    if inherit and k > 0:
+        base = val_class(i, j, 0, None)
+        name = f'ValH_{i}_{j}_{k}'
+    cls = globals().get(name)
+    if cls is None:
+        cls = type(name, (base,), {'__module__': __name__,
+                                   '__qualname__': name})
+        globals()[name] = cls
+    if ver is not None:
+        cls.VER = ver
+    return cls
+
+
+BIG = {}
+
+
+def canon(content):
+    '''canonical text of a content; long ones by digest'''
+    text = core.canon(content)
+    if len(text) > 2000:
+        return 'sha1:' + hashlib.sha1(text.encode()).hexdigest()
+    return text
+
+
+def expand(content):
+    '''{'__big__': [h, t]} stands for a payload of about 90 KiB whose
+    pickle differs from that of another tail only in its last bytes'''
+    if isinstance(content, dict) and '__big__' in content:
+        h, t = content['__big__']
+        if h not in BIG:
+            BIG[h] = list(range(h, h + 30000))
+        return {'head': BIG[h], 'tail': t}
+    return content
 
 
 class SimulatedCrash(BaseException):
@@ -179,7 +226,9 @@ class Store:
                 content = None
                 if contents is not None:
                     content = contents[(j * 3 + k) % len(contents)]
-                vals[vn] = c['Val'](content, self.ver[('v', i, j, k)])
+                cls = val_class(i, j, k, self.ver[('v', i, j, k)],
+                                bool((s.get('inh') or [0] * 9)[k]))
+                vals[vn] = cls(expand(content))
             svs.append(c['SV'](s['name'], self.ver[('s', i, j)], vals))
         return c['Alg'](a['name'], self.ver[('a', i)], svs)
 
@@ -209,14 +258,14 @@ class Store:
                 name = (hashlib.md5(raw).hexdigest() + '_'
                         + hashlib.sha1(raw).hexdigest())
                 expect.append(((run, t) + self.ident(i, j, k), name,
-                               core.canon(v.content), vn))
+                               canon(v.content), vn))
         with self.rig.worker_side():
             ds = self.db.connect(alg, bot, t)
             ds.update()
         if t not in self.targets:
             self.targets.append(t)
-        for key, name, canon, _vn in expect:
-            self.model[key] = (canon, name)
+        for key, name, text, _vn in expect:
+            self.model[key] = (text, name)
             self.blobs.add(name)
         return bot.new_values(), before, expect
 
@@ -256,20 +305,16 @@ class Store:
             if now is p:
                 got[(j, k)] = ('untouched', None)
             else:
-                got[(j, k)] = ('loaded', core.canon(getattr(now, 'content',
+                got[(j, k)] = ('loaded', canon(getattr(now, 'content',
                                                             '<no content>')),
                                tuple(now.__dict__.get('_version_seal_')
                                      or ()))
                 # the caller owns what it was given: an algorithm may refine
                 # a loaded value in place; no later load may see that
                 now.content = ['scribbled on by an earlier caller', t, run]
-                # Version.__setstate__ gives a loaded value the version of a
-                # freshly constructed instance of its class, i.e. the one the
-                # running code declares = the prototype's.  The harness
-                # classes take their version as a constructor argument, so
-                # that step is done here (matters when a kept dataset loads
-                # again through the same algorithm instance).
-                now._version_ = p._version_
+                # (Version.__setstate__ has given it the version its class
+                # declares now - the harness classes declare theirs like a
+                # real engine's, see val_class)
         return got
 
     def expect_load(self, t, run, i, j, k, ver=None):
@@ -601,6 +646,9 @@ def alg_pool(draw, prefix_families=False, max_algs=3):
                 'ver': draw(_ver),
                 'vals': p['vals'][:nv],
                 'vers': [draw(_ver) for _ in range(nv)],
+                # value classes derived from the class of the first value
+                'inh': [0] + [int(draw(st.integers(0, 2)) == 0)
+                              for _ in range(nv - 1)],
             })
         out.append({'task': task, 'name': name, 'ver': draw(_ver),
                     'svs': svs})
@@ -611,6 +659,8 @@ _leaf = st.one_of(
     st.integers(-5, 5), st.text('ab', max_size=3), st.booleans(), st.none(),
     st.floats(allow_nan=False, allow_infinity=False, width=32),
 )
+big_content = st.tuples(st.integers(0, 1), st.integers(0, 2)).map(
+    lambda t: {'__big__': list(t)})
 content = st.recursive(
     _leaf,
     lambda ch: st.one_of(st.lists(ch, max_size=3),
